@@ -231,6 +231,7 @@ _R9 = {
  "C02": " Plus: in the concurrent-readers cases a SECOND cache with its own writer is updated at the same time; every batch an operation returns holds exactly the events of that operation on that cache.",
  "C03": " Plus: a relist that turns up a difference of 2-90 objects followed AT ONCE (changes placed right after the list's snapshot, delivered by the watch session opened at the list's version) by watch events for objects of that difference: replaying a subscriber's stream gives the controller's cache; an object learnt from the watch whose Delete the stream loses is gone after the next completed list whatever that list's ordinal (both parities, names re-used).",
  "C06": " Plus: NSName filters built (spread form) from ONE slice the caller keeps editing and re-using, on a filtered subscription and a filtered clone, with parent events flowing between the edits and the Refilters: the node mirrors the selection of the ids its filter was BUILT from.",
+ "C09": " Plus: joins created while the SOURCE controller's first list is still in flight and 130-190 destination events (deletes and re-creations among them) pass before the join can become ready: not ready before both bases are, then exactly the selection, then following both.",
  "C10": " Plus: a never-reading filtered subscription holding H<100 events when a Refilter produces a batch that only partly fits: it ends with min(H+T,100) events (the H earlier ones in order, then distinct events of the batch), a reading sibling gets all of a batch that fits its emptied buffer. Plus: a consumer with a full buffer takes everything it holds while the library is still reporting its overrun (moment held open by the logger); the 1-3 events published after that, its buffer empty, all arrive in order.",
  "C12": " Plus: the user's context is of a hand-written type (own Done channel, opaque to package context) and is never cancelled: after Close / Close x3 / a failing list the census - taken BEFORE that context is cancelled and including the watcher goroutines package context runs for contexts derived from such a parent - is empty.",
 }
@@ -327,6 +328,7 @@ FLOORS_QUICK = {
   "join-context-cancelled-early": 100,
   "join-mirror-checks": 410,
   "late-destination-joins": 9,
+  "late-source-joins": 13,
   "lossy-destination-watch-cases": 10,
   "ready-order-checks": 220,
   "sibling-joins-closed-mid-stream": 831
@@ -344,7 +346,7 @@ FLOORS_QUICK = {
   "stalled-refilter-checks": 19,
   "stalled-streams-checked": 171,
   "stress-typed-cases": 8,
-  "stress-typed-reads": 1135
+  "stress-typed-reads": 1192
  },
  "C11": {
   "outside-nodes-checked": 813,
